@@ -245,7 +245,15 @@ bool runDynamic(const Seq& s, Fail& F, bool& nontrivial) {
 			} break;
 		case 2: if (!m.empty()) { const size_t i = size_t(o.a) % m.size(); if (arr[i].v != m[i].v) F.set(S("DynamicArrayT<%d>: [%zu] wrong", C, i)); } break;
 		case 3: arr.clear(); m.clear(); break;
-		case 4: break;
+		case 4: {
+			// value semantics: a copy holds the same elements; assigning a copy back, or the array to itself, changes nothing
+			DynamicArrayT<Item, C> copy{arr};
+			if (copy.count() != m.size()) F.set(S("DynamicArrayT<%d>: a copy holds %d elements, the original %zu", C, int(copy.count()), m.size()));
+			for (size_t i = 0; i < m.size() && !F.failed; ++i) if (copy[i].v != m[i].v) F.set(S("DynamicArrayT<%d>: copy element %zu differs", C, i));
+			if (o.a & 1) { DynamicArrayT<Item, C>& alias = arr; arr = alias; }      // self-assignment
+			else if (o.a & 2) { arr = copy; }                                        // assignment of an equal array
+			else { DynamicArrayT<Item, C> shorter; if (!m.empty()) shorter += m[0]; DynamicArrayT<Item, C> keep{arr}; arr = shorter; arr = keep; }   // shrink, then restore
+			break; }
 		case 5: {
 			DynamicArrayT<Item, 7> other;
 			const size_t n = size_t(o.b) % 8;
